@@ -112,6 +112,20 @@ def wildcard(res):
     d = [c.name for c in conn.execute('SELECT * FROM #t').description]
     if d != ['a', 'b', 'c']:
         res.violation('h07:wildcard:user-table', '* expands to the declared columns in declaration order', {'query': 'SELECT * FROM #t'}, d, ['a', 'b', 'c'])
+    # a table whose default columns are a re-ordered subset of its stored columns: `*` follows the declared default order
+    from harness.common import MemTable
+
+    class Reordered(MemTable):
+        wildcard_columns = ['c', 'a']
+    conn.tables['w'] = Reordered('w', COLS, ROWS)
+    for q, want in [('SELECT * FROM #w', ['c', 'a']), ('SELECT * FROM #w ORDER BY b', ['c', 'a']), ('SELECT * FROM (SELECT * FROM #w)', ['c', 'a'])]:
+        res.case(('wild-reordered', q))
+        cur = conn.execute(q)
+        d, rows = [c.name for c in cur.description], cur.fetchall()
+        ai, ci = [n for n, _ in COLS].index('a'), [n for n, _ in COLS].index('c')
+        exp = sorted([(r[ci], r[ai]) for r in ROWS], key=repr)
+        if d != want or sorted([tuple(r) for r in rows], key=repr) != exp:
+            res.violation('h07:wildcard:declared-order', '* expands to the table default columns in their declared order', {'query': q}, (d, rows[:2]), (want, exp[:2]))
     res.case('wild-subquery')
     d = [c.name for c in conn.execute('SELECT * FROM (SELECT c, a + 1 AS k, b FROM #t ORDER BY a)').description]
     if d != ['c', 'k', 'b']:
